@@ -340,6 +340,7 @@ class Verifier:
                 o = _SArr(v.shape, _snap(v), v.kind)
                 o.finite = _sf(v)
                 olds['old_' + k] = o
+                olds[k + '_input'] = v      # the caller's array itself (a later read sees writes)
             else:
                 olds['old_' + k] = v
         normal = 0
@@ -373,6 +374,18 @@ class Verifier:
                     isinstance(n.targets[0], ast.Name) and n.targets[0].id == c.stmt:
                 node = n
                 break
+        rename = {}
+        if node is None and c.stmt_like:
+            # the local may have been renamed: find the assignment whose right-hand side has the
+            # recorded shape up to a consistent (injective) renaming of names
+            pat = ast.parse(c.stmt_like, mode='eval').body
+            for n in ast.walk(fdef):
+                if isinstance(n, ast.Assign) and len(n.targets) == 1 and \
+                        isinstance(n.targets[0], ast.Name):
+                    m = _unify(pat, n.value, {})
+                    if m is not None and len(set(m.values())) == len(m):
+                        node, rename = n, m
+                        break
         if node is None:
             raise Unsupported(f'assignment to {c.stmt} not found')
         st = State()
@@ -383,6 +396,9 @@ class Verifier:
             v = case[name] if name in case else make_symbolic(spec, name, self.reg, st)
             st.env[name] = v
             leaves(name, v, inputs)
+        for cname, actual in rename.items():
+            if cname in st.env and actual != cname:
+                st.env[actual] = st.env[cname]
         free = {x.id for x in ast.walk(node.value) if isinstance(x, ast.Name)}
         for nm in free:
             if nm not in st.env and nm not in consts and nm not in ('np', 'math', 'u', 'True', 'False', 'None', 'float',
@@ -464,6 +480,41 @@ class Verifier:
         if o.status == DISCHARGED:
             o.status = UNKNOWN
             o.detail = f'solver returned unknown for: {what}'
+
+
+def _unify(pat, node, m):
+    """Structural match of two expression ASTs where Name ids may differ consistently."""
+    if isinstance(pat, ast.Name) and isinstance(node, ast.Name):
+        if pat.id in m:
+            return m if m[pat.id] == node.id else None
+        m = dict(m)
+        m[pat.id] = node.id
+        return m
+    if type(pat) is not type(node):
+        return None
+    for f in pat._fields:
+        a, b = getattr(pat, f, None), getattr(node, f, None)
+        if f in ('ctx', 'lineno', 'col_offset', 'end_lineno', 'end_col_offset', 'kind'):
+            continue
+        if isinstance(a, list):
+            if not isinstance(b, list) or len(a) != len(b):
+                return None
+            for x, y in zip(a, b):
+                if isinstance(x, ast.AST):
+                    m = _unify(x, y, m)
+                    if m is None:
+                        return None
+                elif x != y:
+                    return None
+        elif isinstance(a, ast.AST):
+            if not isinstance(b, ast.AST):
+                return None
+            m = _unify(a, b, m)
+            if m is None:
+                return None
+        elif a != b:
+            return None
+    return m
 
 
 def run_mutants(verifier, c):
